@@ -104,10 +104,11 @@ class DilatedPair:
         return None
 
     def l2_links(self):
+        """links carrying a Dilation connection of THIS pair (other pairs may live in the same World)"""
         out = []
         for link in self.world.reactor.links:
             ps = [unwrap(e.protocol) for e in link.ends]
-            if any(isinstance(p, DilatedConnectionProtocol) for p in ps):
+            if any(isinstance(p, DilatedConnectionProtocol) and self.party_of(p) is not None for p in ps):
                 out.append(link)
         return out
 
